@@ -119,7 +119,9 @@ func EncodeHighLevel(msg string, shape SymbolShapeHint, minSize, maxSize *gozxin
 
 	encodingMode := HighLevelEncoder_ASCII_ENCODATION //Default mode
 	for context.HasMoreCharacters() {
-		encoders[encodingMode].encode(context)
+		if e := encoders[encodingMode].encode(context); e != nil {
+			return nil, gozxing.WrapWriterException(e)
+		}
 		if context.GetNewEncoding() >= 0 {
 			encodingMode = context.GetNewEncoding()
 			context.ResetEncoderSignal()
